@@ -321,6 +321,104 @@ def chunk_strategy(tier):
     return gen.pick((3, sp), (3, pk), (1, by), (2, ct))
 
 
+
+# ---------------------------------------------------------------------------
+# histories: observe / mutate / observe again on one vector (model-based interpreter over an op list)
+def check_history(c):
+    k = c["k"]
+    cur = [red(x, k) for x in c["a"]]
+    A = mk(cur, k)
+    for op in c["ops"]:
+        kind = op[0]
+        n = len(cur)
+        clamp = lambda t: tuple(v if v is None or j == 2 else max(-n, min(n, v)) for j, v in enumerate(t))
+        if kind == "set":
+            if n == 0:
+                continue
+            i = op[1] % n
+            guard(operator.setitem, A, i - n if op[3] else i, op[2])
+            cur[i] = red(op[2], k)
+        elif kind == "setslice":
+            sl = slice(*clamp(op[1]))       # in-range slices only (a stop beyond the end zero-extends: crysp-specific)
+            pos = list(range(n)[sl])
+            vals = [red(v, k) for v in (list(op[2]) * (len(pos) + 1))[:len(pos)]]
+            guard(operator.setitem, A, sl, list(vals))
+            for p_, v in zip(pos, vals):
+                cur[p_] = v
+        elif kind == "setlist":
+            if n == 0:
+                continue
+            pos = []
+            for j in op[1]:
+                if j % n not in pos:
+                    pos.append(j % n)
+            vals = [red(v, k) for v in (list(op[2]) * (len(pos) + 1))[:len(pos)]]
+            guard(operator.setitem, A, list(pos), Poly(vals, k) if vals else [])
+            for p_, v in zip(pos, vals):
+                cur[p_] = v
+        elif kind == "dim":
+            A.dim = op[1]
+            cur = (cur + [0] * op[1])[:op[1]]
+        elif kind == "split":
+            if k == 0:
+                continue
+            divs = [d for d in range(1, k + 1) if k % d == 0]
+            k2 = divs[op[1] % len(divs)]
+            big = op[2]
+            r = guard(A.split, k2, big)
+            exp = []
+            for x in cur:
+                pieces = [(x >> (k2 * j)) & ((1 << k2) - 1) for j in range(k // k2)]
+                exp += pieces[::-1] if big else pieces
+            is_poly(r, exp, k2, "history:split")
+        elif kind == "pack":
+            if k == 0 or k % 8:
+                continue
+            eq(guard(pack, A), b"".join(x.to_bytes(k // 8, "little") for x in cur), "history:pack")
+        elif kind == "read":
+            sl = slice(*clamp(op[1]))
+            is_poly(guard(operator.getitem, A, sl), cur[sl], k, "history:read[slice]")
+            if n:
+                i = op[2] % n
+                is_poly(guard(operator.getitem, A, i - n), [cur[i]], k, "history:read[int]")
+        elif kind == "arith":
+            o = "+-^&|"[op[1] % 5]
+            b = [red(v, k) for v in op[2]]
+            is_poly(guard(BIN[o], A, Poly(list(b), k)), m_bin(o, cur, b, k), k, "history:Poly%sPoly" % o)
+            is_poly(guard(operator.neg, A), [red(-x, k) for x in cur], k, "history:neg")
+        elif kind == "iter":
+            got = [int(e) for e in guard(list, A)]
+            eq(got, list(cur), "history:iter")
+            eq(guard(len, A), n, "history:len")
+        else:
+            raise AssertionError(kind)
+        is_poly(A, cur, k, "history:%s:vector!=model" % kind)
+
+
+def history_strategy(tier):
+    maxops = 10 if tier == "quick" else 24
+    ring = st.sampled_from([0, 1, 3, 8, 12, 16, 32, 64])
+
+    def for_ring(k):
+        val = gen.nbits(k or 40)
+        arg = gen.pick((1, st.none()), (3, gen.uint(-12, 12)))
+        sl = st.tuples(arg, arg, st.sampled_from([None, 1, 1, 2, 3]))
+        ops = gen.pick(
+            (3, st.tuples(st.just("set"), gen.uint(0, 100), val, st.booleans())),
+            (2, st.tuples(st.just("setslice"), sl, st.lists(val, min_size=1, max_size=4).map(tuple))),
+            (2, st.tuples(st.just("setlist"), st.lists(gen.uint(0, 100), max_size=5).map(tuple), st.lists(val, min_size=1, max_size=4).map(tuple))),
+            (1, st.tuples(st.just("dim"), gen.uint(1, 12))),
+            (3, st.tuples(st.just("split"), gen.uint(0, 20), st.booleans())),
+            (2, st.tuples(st.just("pack"))),
+            (2, st.tuples(st.just("read"), sl, gen.uint(0, 100))),
+            (2, st.tuples(st.just("arith"), gen.uint(0, 4), st.lists(val, max_size=6).map(tuple))),
+            (1, st.tuples(st.just("iter"))),
+        )
+        return st.builds(lambda a, o: {"k": k, "a": a, "ops": tuple(o)}, gen.uint(0, 8).flatmap(lambda d: coeffs(k, d)),
+                         st.lists(ops, min_size=2, max_size=maxops))
+    return ring.flatmap(for_ring)
+
+
 FACETS = [
     Facet("pairs-exhaustive", check_pair, cases=pair_cases, exhaustive=True, distinct=True,
           nontrivial=nontriv_pair, classify=classify_pair, shards={"quick": 16, "thorough": 64},
@@ -345,5 +443,10 @@ FACETS = [
     Facet("chunking", check_chunk, strategy=chunk_strategy, budget={"quick": 3000, "thorough": 60000},
           nontrivial=lambda c: len(c["a"]) > 0, classify=lambda c: (c["what"],) + (("bigend",) if c.get("bigend") else ()),
           rule="split(k') for every divisor k' of k (both endians), pack for k in {8..64}, Poly(bytes), constructors with dim"),
+    Facet("observe-mutate-histories", check_history, strategy=history_strategy, budget={"quick": 3000, "thorough": 60000},
+          nontrivial=lambda c: len(c["ops"]) >= 2,
+          classify=lambda c: tuple(sorted(set(o[0] for o in c["ops"]))),
+          rule="op lists on one vector mixing observers (split/pack/read/iter/arithmetic) and mutators (set by int/slice/list, dim change): "
+               "every observation and the vector itself are compared with the model after every step (stale caches, aliasing)"),
 ]
 WEIGHT = {"pairs-exhaustive": 10, "index-sampled": 3, "pairs-sampled": 3}
